@@ -198,6 +198,14 @@ func c16Invalidations() []invDev {
 	post("ext-duplicate-key", "ext", "", "", func(r *reqSpec, req *signature.SignRequest, rs *envenc.RemoteSigner) {
 		req.ExtendedSignedAttributes = []signature.Attribute{attr("io.example.a", true, 1), attr("io.example.a", false, 2)}
 	})
+	// a text key that is not valid UTF-8 is a key neither format can represent (JSON replaces the bytes silently - two such keys can
+	// even collide -, a CBOR text string with such bytes is refused on reading)
+	post("ext-key-invalid-utf8", "ext", "", "", func(r *reqSpec, req *signature.SignRequest, rs *envenc.RemoteSigner) {
+		req.ExtendedSignedAttributes = []signature.Attribute{attr("k\xff", false, "v")}
+	})
+	post("ext-keys-invalid-utf8-colliding-after-replacement", "ext", "", "", func(r *reqSpec, req *signature.SignRequest, rs *envenc.RemoteSigner) {
+		req.ExtendedSignedAttributes = []signature.Attribute{attr("k\xff", false, "a"), attr("k\xfe", true, "b")}
+	})
 	// COSE: integer labels above the int64 range can be written but not read back by the library: not a request to sign
 	for _, bk := range []struct {
 		n string
